@@ -348,3 +348,29 @@ def f_reals(a, b):
     t0 = a * 0.5
     t1 = (7 / 8) * t0 + 0.5 * b
     return (t1 > 1.6, max(0.4, min(3.2, t1)) == t1, t0 + t1 <= 100.0)
+
+
+def d_del_statement(a, b):
+    d = {1: a, 2: b, 3: a + b}
+    del d[2]
+    l = [a, b, a]
+    del l[1]
+    r = []
+    try:
+        del d[7]
+    except KeyError:
+        r.append("missing")
+    tmp = a
+    del tmp
+    return (list(d.items()), l, r)
+
+
+def s_set_truth(a):
+    s = set()
+    r = [bool(s), not s]
+    s.add(3)
+    r.append(bool(s))
+    s.discard(3)
+    r.append(1 if s else 0)
+    return r
+
